@@ -182,7 +182,7 @@ fn strategy(tier: Tier) -> BoxedStrategy<Case> {
             2 => Just((4096usize, 4usize)),
         ],
         stream,
-        prop_oneof![5 => Just(0u16), 1 => 1u16..40],
+        prop_oneof![10 => Just(0u16), 2 => 1u16..40, 1 => 40u16..1200],
     )
         .prop_map(|(k, (w, d), stream, extend_chunk)| Case { k, w, d, stream, extend_chunk })
         .boxed()
